@@ -41,8 +41,18 @@ func genC26(ex c26Excl, ms c26Methods, only []string) func(t *rapid.T) C26Scenar
 			ro = append(ro, n)
 		}
 	}
+	var filterRPCs []string
+	for _, n := range all {
+		switch n {
+		case "GetByIndexStream", "GetByIndexStreamFromMany", "ShiftMatchingTreasures", "ShiftMatchingTreasuresMany", "PatchExpiredTreasures", "PatchExpiredTreasuresMany":
+			filterRPCs = append(filterRPCs, n)
+		}
+	}
 	return func(t *rapid.T) C26Scenario {
 		var s C26Scenario
+		if len(filterRPCs) > 0 && rapid.IntRange(0, 7).Draw(t, "filtercase") == 0 {
+			return genC26FilterCase(t, ex, ms, filterRPCs)
+		}
 		tc := rapid.IntRange(0, 9).Draw(t, "target")
 		switch {
 		case tc < 7 || len(ro) == 0:
@@ -85,6 +95,80 @@ func genC26(ex c26Excl, ms c26Methods, only []string) func(t *rapid.T) C26Scenar
 		}
 		return s
 	}
+}
+
+// plainEnvelope keeps the generated filters of a filter-taking request but makes the rest of the request an
+// ordinary whole-swamp query, so that the filter legs are actually evaluated against the stored records.
+func plainEnvelope(m protoreflect.Message, t *rapid.T) {
+	fs := m.Descriptor().Fields()
+	for _, n := range []string{"IncludedKeys", "ExcludeKeys", "FromTime", "ToTime", "From", "Limit", "KeysOnly", "MaxResults", "HowMany", "Cap", "Condition"} {
+		if fd := fs.ByName(protoreflect.Name(n)); fd != nil {
+			m.Clear(fd)
+		}
+	}
+	if fd := fs.ByName("SwampName"); fd != nil {
+		m.Set(fd, protoreflect.ValueOfString(c26Victim()))
+	}
+	if fd := fs.ByName("IslandID"); fd != nil {
+		m.Set(fd, protoreflect.ValueOfUint64(c26IslandAuto))
+	}
+	if fd := fs.ByName("IndexType"); fd != nil {
+		m.Set(fd, protoreflect.ValueOfEnum(protoreflect.EnumNumber(rapid.SampledFrom([]int32{0, 2, 1}).Draw(t, "plainIndex")))) // KEY, CREATION_TIME, EXPIRATION_TIME
+	}
+	if fd := fs.ByName("OrderType"); fd != nil {
+		m.Set(fd, protoreflect.ValueOfEnum(protoreflect.EnumNumber(rapid.IntRange(0, 1).Draw(t, "plainOrder"))))
+	}
+	for _, n := range []string{"Requests", "Queries"} {
+		if fd := fs.ByName(protoreflect.Name(n)); fd != nil && fd.IsList() && fd.Kind() == protoreflect.MessageKind {
+			l := m.Mutable(fd).List()
+			if l.Len() == 0 {
+				l.Append(protoreflect.ValueOfMessage(l.NewElement().Message()))
+			}
+			for i := 0; i < l.Len() && i < 3; i++ {
+				plainEnvelope(l.Get(i).Message(), t)
+			}
+			if l.Len() > 3 {
+				l.Truncate(3)
+			}
+		}
+	}
+}
+
+// genC26FilterCase: a filter-taking RPC with structurally generated filters over a plain envelope on the
+// prefilled victim swamp, followed by a valid write to the vector record the filters looked at.
+func genC26FilterCase(t *rapid.T, ex c26Excl, ms c26Methods, rpcs []string) C26Scenario {
+	s := C26Scenario{Target: "victim", Prefill: true}
+	rpc := rapid.SampledFrom(rpcs).Draw(t, "filterrpc")
+	msg, marks := genC26Request(t, ms, rpc, ex, c26Victim(), "0")
+	plainEnvelope(msg.ProtoReflect(), t)
+	marks["plain-envelope"] = true
+	push := func(rpc string, m proto.Message, mk map[string]bool) {
+		b, err := proto.MarshalOptions{AllowPartial: true, Deterministic: true}.Marshal(m)
+		if err != nil {
+			t.Fatalf("marshal %s: %v", rpc, err)
+		}
+		st := C26Step{RPC: rpc, Req: b, Route: rapid.SampledFrom([]string{"direct", "grpc"}).Draw(t, "route"), Desc: describe(m)}
+		for k := range mk {
+			st.Marks = append(st.Marks, k)
+		}
+		sort.Strings(st.Marks)
+		s.Steps = append(s.Steps, st)
+	}
+	push(rpc, msg, marks)
+	// a write to the examined record must still go through (a leaked record guard would block it for ever)
+	v := c26Victim()
+	switch rapid.IntRange(0, 3).Draw(t, "followwrite") {
+	case 0:
+		push("Set", &hydrapb.SetRequest{Swamps: []*hydrapb.SwampRequest{{IslandID: c26IslandAuto, SwampName: v, CreateIfNotExist: true, Overwrite: true,
+			KeyValues: []*hydrapb.KeyValuePair{{Key: "k6", StringVal: sptr("rewritten")}}}}}, nil)
+	case 1:
+		push("Delete", &hydrapb.DeleteRequest{Swamps: []*hydrapb.DeleteRequest_SwampKeys{{IslandID: c26IslandAuto, SwampName: v, Keys: []string{"k6", "k3"}}}}, nil)
+	case 2:
+		push("PatchTreasures", &hydrapb.PatchTreasuresRequest{IslandID: c26IslandAuto, SwampName: v, Patches: []*hydrapb.TreasurePatch{{Key: "k6", Ops: []*hydrapb.PatchOp{{Op: hydrapb.PatchOp_SET, Path: "a", Value: []byte{0x05}}}}}}, nil)
+	default:
+		push("IncrementInt64", &hydrapb.IncrementInt64Request{IslandID: c26IslandAuto, SwampName: v, Key: "k6", IncrementBy: 1}, nil)
+	}
+	return s
 }
 
 func itoa(i int) string { return strconv.Itoa(i) }
